@@ -25,6 +25,7 @@ def fail_sets(n, pairs=True):
 def cases(tier: str):
     q = tier == "quick"
     yield dict(special="cycles", nmax=3 if q else 4)
+    yield dict(special="runtime_nested")
     # A. resources x sequential x failing nodes x (flag chains: every flag source falsy)
     for n in (1, 2, 3):
         for es in shapes(n):
@@ -74,6 +75,67 @@ def cases(tier: str):
                     for mc in (1, 2):
                         for is_async in (False, True):
                             yield dict(base, setup=st, res=res, mc=mc, sel={"setup": True, "T": None}, is_async=is_async, ties=1)
+
+
+RUNTIME_NESTED_SRC = '''
+from tawazi import xn, dag, Resource
+import twzmc.harness as H
+
+@xn(resource=Resource.{inner_res})
+def leaf(*a, **k):
+    return H.node_body("leaf", a, k)
+
+@dag(max_concurrency={inner_mc})
+def inner_dag(v):
+    return leaf(v)
+
+@xn(resource=Resource.{caller_res})
+def caller(*a, **k):
+    # a node function that runs another DAG at RUN time (not a nested description)
+    H.node_body("caller", a, k)
+    return ("inner result", inner_dag(a[0] if a else 0))
+
+@xn(resource=Resource.thread)
+def other(*a, **k):
+    return H.node_body("other", a, k)
+
+@dag(max_concurrency={mc}, is_async={is_async})
+def outer(x):
+    r = caller(x)
+    o = other(x)
+    return r, o
+'''
+
+
+def runtime_nested_case(acc, c):
+    """A node function may itself run a DAG at run time; the outer call still has to terminate (no pool starvation)."""
+    from .. import harness as H
+    from ..build import exec_source
+    acc.cases += 1
+    # (a main-thread caller cannot run a sync DAG: the scheduler itself runs inside asyncio.run on that thread - excluded)
+    for caller_res in ("thread", "async_thread"):
+        for inner_res in ("thread", "async_thread", "main_thread"):
+            for mc in (1, 2):
+                for is_async in (False, True):
+                    src = RUNTIME_NESTED_SRC.format(caller_res=caller_res, inner_res=inner_res, mc=mc, inner_mc=1, is_async=is_async)
+                    ns = exec_source(src)
+                    d = ns["outer"]
+                    if is_async:
+                        async def op():
+                            return await d(1)
+                    else:
+                        def op():
+                            return d(1)
+                    res = H.run_controlled(op, is_async=is_async, watchdog=8.0)
+                    acc.evaluations += 1
+                    acc.mark_nontrivial(("runtime_nested", caller_res, inner_res, mc, is_async))
+                    case = dict(c, caller_res=caller_res, inner_res=inner_res, mc=mc, is_async=is_async)
+                    if res.outcome in ("hang", "spin") or res.forced:
+                        acc.violation(V("hang", f"outer DAG whose {caller_res} node runs a DAG at run time ({inner_res} inner node, max_concurrency={mc}, is_async={is_async}) does not terminate",
+                                        nested=True), case, (), res.trace, src)
+                        acc.stall(res)
+                    elif res.outcome != "return":
+                        acc.violation(V("internal_error", f"run-time nested DAG call raised {res.exc!r}", exc=type(res.exc).__name__, nested=True), case, (), res.trace, src)
 
 
 def cycles_case(acc, c):
@@ -139,7 +201,9 @@ def all_cases(tier):
 
 def run_shard(tier, k, n, acc):
     for c in shard_iter(all_cases(tier), k, n, acc):
-        if c.get("special"):
+        if c.get("special") == "runtime_nested":
+            runtime_nested_case(acc, c)
+        elif c.get("special"):
             cycles_case(acc, c)
         else:
             run_case(acc, c, MONITORS, nontrivial)
@@ -149,7 +213,7 @@ def replay(v):
     if v["case"].get("special"):
         from ..acc import Acc
         a = Acc(ID, 0, 1, 600)
-        cycles_case(a, v["case"])
+        (runtime_nested_case if v["case"].get("special") == "runtime_nested" else cycles_case)(a, v["case"])
         return a.violations, None
     res, viols = replay_case(v["case"], MONITORS, v["prefix"])
     return viols, res.trace
